@@ -80,5 +80,38 @@ def options(draw, m, items):
     return {'top': list(top), 'ignore': ignore, 'boost': boost}
 
 
+@st.composite
+def reopen_top(draw, m, opts):
+    """In a third of the cases with an existing top namespace: a namespace on the path to (or
+    equal to) the top namespace is opened twice.  No submodule variable belongs to such a block,
+    so both blocks must simply be bound."""
+    if not opts['top'] or opts['top'] == ['nosuch'] or draw(st.integers(0, 2)) != 0:
+        return m
+    k = draw(st.integers(1, len(opts['top'])))
+    return _split_block(draw, m, tuple(opts['top'][:k]))
+
+
+def _split_block(draw, node, path):
+    """Cut the first block of namespace `path` into two adjacent blocks of the same name."""
+    content = list(node.content)
+    for i, it in enumerate(content):
+        if isinstance(it, M.Namespace) and it.name == path[0]:
+            if len(path) > 1:
+                content[i] = _split_block(draw, it, path[1:])
+            else:
+                n = len(it.content)
+                cut = draw(st.integers(1, n - 1)) if n >= 2 else draw(st.integers(0, n))
+                content[i:i + 1] = [M.Namespace(it.name, tuple(it.content[:cut])),
+                                    M.Namespace(it.name, tuple(it.content[cut:]))]
+            break
+    return replace(node, content=tuple(content))
+
+
+def reopened(node):
+    names = [it.name for it in node.content if isinstance(it, M.Namespace)]
+    return len(names) != len(set(names)) or any(
+        reopened(it) for it in node.content if isinstance(it, M.Namespace))
+
+
 def scan(tu: str):
     return pyscan.scan_body(pyscan.extract_body(tu))
